@@ -142,7 +142,11 @@ func VerifC09VP9() {
 	used.NS, used.Y, used.G, used.NG = verifU8("ns"), verifBool("y"), verifBool("g"), verifU8("ng")
 	if verifCase("stale-lists", 0, 1) == 1 {
 		used.PDiff = []uint8{verifU8("pd0"), verifU8("pd1")}
-		used.Width, used.Height = []uint16{verifU16("w0")}, []uint16{verifU16("h0")}
+		// more layers than most packets carry, with spare capacity behind them
+		used.Width, used.Height = make([]uint16, 3, 8), make([]uint16, 3, 8)
+		for i := range used.Width {
+			used.Width[i], used.Height[i] = verifU16("w0"), verifU16("h0")
+		}
 		used.PGTID, used.PGU, used.PGPDiff = []uint8{verifU8("pgtid")}, []bool{verifBool("pgu")}, [][]uint8{{verifU8("pgpd")}}
 	}
 	fresh := &VP9Packet{}
@@ -316,4 +320,37 @@ func VerifC09AV1OwnedSeq() {
 	a, b := &AV1Depacketizer{}, &AV1Depacketizer{}
 	verifC09OwnedSeq("C09.av1seq", a.Unmarshal, b.Unmarshal, [][]byte{p1, p2, p3})
 	verifCover("C09.av1seq.end")
+}
+
+// aggregation packets beyond the reach of the arbitrary short payloads: a
+// well-formed first unit followed by 0..4 arbitrary bytes, with and without DONL
+func VerifC09H265AggregationTail() {
+	donl := verifCase("donl", 0, 1) == 1
+	pl := []byte{48 << 1, verifU8("h1")&0xF8 | 1}
+	if donl {
+		pl = append(pl, verifU8("donl.hi"), verifU8("donl.lo"))
+	}
+	first := verifCase("first.size", 1, 2)
+	pl = append(pl, 0, uint8(first))
+	pl = append(pl, verifBytes("first", first)...)
+	pl = append(pl, verifBytes("tail", verifCase("tail", 0, 4))...)
+	used, fresh := &H265Packet{}, &H265Packet{}
+	used.WithDONL(donl)
+	fresh.WithDONL(donl)
+	_, _ = used.Unmarshal(verifBytes("earlier", verifCase("earlier.len", 0, 2)))
+	_, errU := used.Unmarshal(pl)
+	_, errF := fresh.Unmarshal(pl)
+	verifAssert("C09.h265ap.reuse-errorness", (errU == nil) == (errF == nil))
+	_ = used.IsPartitionHead(pl)
+	if errU == nil && errF == nil {
+		verifH265Touch(used)
+		u, ok1 := used.Packet().(*H265AggregationPacket)
+		f, ok2 := fresh.Packet().(*H265AggregationPacket)
+		verifAssert("C09.h265ap.kind", ok1 && ok2)
+		if ok1 && ok2 {
+			verifAssert("C09.h265ap.same", len(u.OtherUnits()) == len(f.OtherUnits()) && verifEqBytes(u.FirstUnit().NalUnit(), f.FirstUnit().NalUnit()))
+		}
+		verifCover("C09.h265ap.accept")
+	}
+	verifCover("C09.h265ap.end")
 }
